@@ -315,10 +315,47 @@ def trial_outlet(fam, rng, updates, with_ghost):
     return None, cases
 
 
+def trial_length(rng):
+    """the manager's own zone length for a lattice band with a random unit
+    normal: nl layers spaced dx along the normal span nl * dx"""
+    nrm = rng.normal(size=3)
+    nrm = nrm / np.linalg.norm(nrm)
+    t1 = np.cross(nrm, [0.3, 0.5, 0.7])
+    t1 = t1 / np.linalg.norm(t1)
+    t2 = np.cross(nrm, t1)
+    dx = 0.1
+    nl, nw = int(rng.randint(1, 6)), int(rng.randint(1, 5))
+    D, A, B = np.meshgrid((np.arange(nl) + 0.5) * dx,
+                          (np.arange(nw) - nw / 2.0) * dx,
+                          (np.arange(nw) - nw / 2.0) * dx, indexing='ij')
+    P = np.outer(D.ravel(), nrm) + np.outer(A.ravel(), t1) + \
+        np.outer(B.ravel(), t2)
+    pa = make('inlet', len(P), rng, 0, P)
+    info = iom.InletInfo('inlet', normal=list(nrm), refpoint=[0.0, 0.0, 0.0])
+    man = iom.InletOutletManager(['fluid'], inletinfo=[info], outletinfo=[])
+    man.update_dx(dx)
+    man._update_inlet_outlet_info(pa)
+    if abs(info.length - nl * dx) > 1e-9:
+        return dict(kind='zone length', family='manager',
+                    normal=nrm.tolist(), layers=nl, spacing=dx,
+                    problem='zone length computed by the manager is %r, the '
+                    'layers span %r along the normal' % (
+                        float(info.length), nl * dx))
+    return None
+
+
 bad = None
 total = 0
 for seed in d['seeds']:
     rng = np.random.RandomState(seed)
+    for rep in range(5):
+        bad = trial_length(rng)
+        total += 1
+        if bad:
+            bad['seed'] = seed
+            break
+    if bad:
+        break
     for fam in [None] + FAMILIES:
         for kind in ('inlet', 'outlet'):
             wg = bool(rng.rand() < 0.5) and (kind == 'inlet' or
